@@ -49,7 +49,7 @@ type simMaster struct {
 	conns  []*simConn
 	prog   int // handler progress (transactions accepted or rejected so far on the current attempt)
 	cond   *sync.Cond
-	// refuse makes the next connection fail before a dump exists: "handshake-err" | "close-on-accept" | "query-err"
+	// refuse makes the next connection fail before a dump exists: "handshake-err" | "close-on-accept" | "query-err" | "rst-after-query"
 	refuse string
 }
 
@@ -242,6 +242,14 @@ func (m *simMaster) serve(c net.Conn, sc *simConn, refuse string) {
 				continue
 			}
 			writePacket(c, 1, okPacket)
+			if refuse == "rst-after-query" {
+				// the connection dies right after the checksum query was answered: depending on timing the replica's
+				// dump request fails to be written, or is written and never answered
+				if tc, ok := c.(*net.TCPConn); ok {
+					tc.SetLinger(0)
+				}
+				return
+			}
 		case 0x12: // COM_BINLOG_DUMP
 			req := dumpReq{raw: append([]byte(nil), p...)}
 			if len(p) >= 11 {
